@@ -362,3 +362,104 @@ def requested(case, j=None):
 
 def ulp_close(a, b, n=4):
     return abs(a - b) <= n * math.ulp(max(abs(a), abs(b), 5e-324))
+
+
+# ---------------------------------------------------------------------------------------------
+# clusters: evaluation times a tiny relative distance away from another candidate time
+# ("duplicates within tolerance" of the property's quantifier)
+MIN_SAME_LIST_GAP = 1.5e-12  # pulser rejects times closer than 1e-12 inside one list
+
+
+def _clean_list(ts):
+    """Sorted, inside [0,1], and acceptable to pulser as ONE list (gaps >= 1.5e-12)."""
+    out = []
+    for t in sorted(set(float(x) for x in ts if 0.0 <= x <= 1.0)):
+        if not out or t - out[-1] >= MIN_SAME_LIST_GAP:
+            out.append(t)
+    return out
+
+
+def gen_cluster_case(rng, max_points=300, max_dur=10000, backend=None, min_dur=1):
+    """Evaluation-time sets containing clusters: a requested time at relative distance delta,
+    log-uniform in [1e-15, 1e-7], from (a) a multiple of dt, (b) another time of the same
+    observable, (c) a time of another observable / of the config default; anchors anywhere in
+    [0,1] including 0 and 1 and the last multiple of dt."""
+    while True:
+        dur = rng.choice([2, 4, 10, 16, 50, 100, 250, 1000, 1234, 4000, 10000, rng.randint(min_dur, max_dur)])
+        dt = rng.choice(DTS + [float(dur), dur * 1.5, round(rng.uniform(0.1, 20), 2)])
+        if min_dur <= dur <= max_dur and dur / dt <= max_points:
+            break
+    n = int(math.floor(dur / dt))
+    lists = {"a": [], "b": [], "d": []}   # observable A, observable B, config default (observable C)
+    info = []
+    for _ in range(rng.randint(1, 3)):
+        how = rng.choice(["multiple", "multiple", "same", "other", "default"])
+        where = rng.random()
+        if where < 0.15:
+            anchor = 1.0
+        elif where < 0.25:
+            anchor = 0.0
+        elif where < 0.4:
+            anchor = n * dt / dur          # last multiple of dt
+        elif where < 0.7 or how == "multiple":
+            anchor = rng.randint(0, n) * dt / dur
+        elif where < 0.85:
+            anchor = rng.randint(1, 999) / 1000
+        else:
+            anchor = rng.random()
+        anchor = min(max(anchor, 0.0), 1.0)
+        delta = 10 ** rng.uniform(-15, -7)
+        sign = -1.0 if (anchor >= 1.0 or (anchor > 0.0 and rng.random() < 0.5)) else 1.0
+        t = anchor + sign * delta
+        if not (0.0 <= t <= 1.0) or t == anchor:
+            continue
+        info.append({"how": how, "anchor": anchor, "delta": abs(t - anchor)})
+        if how == "multiple":
+            lists[rng.choice("abd")].append(t)
+        elif how == "same":
+            k = rng.choice("abd")
+            lists[k] += [anchor, t]
+        elif how == "other":
+            lists["a"].append(anchor)
+            lists["b"].append(t)
+        else:
+            lists["d"].append(anchor)
+            lists[rng.choice("ab")].append(t)
+    if rng.random() < 0.5:
+        lists[rng.choice("abd")] += gen_times(rng, dur, dt, maxn=2)
+    a, b, d = (_clean_list(lists[k]) for k in "abd")
+    obs = [o for o in (a, b) if o]
+    dflt = d if d else [1.0]
+    if d or rng.random() < 0.3:
+        obs.append(None)
+    if not obs:
+        obs = [None]
+    rng.shuffle(obs)
+    case = {"dur": dur, "dt": dt, "obs": obs, "dflt": dflt, "clusters": info}
+    if backend:
+        case["backend"] = backend
+    return case
+
+
+GREY_LO, GREY_HI = 0.5e-12, 4e-9
+
+
+def premise_mode(case, dur_eff=None):
+    """'strong' when the input satisfies the premise of C14_recorded_exactly_at_requested_times
+    (with margins): all distinct candidate times (multiples of dt, requested times, 1.0; relative)
+    are closer than 0.5e-12 or farther than 4e-9.  'weak' otherwise: then only 'every requested
+    time is recorded within 1e-12' and 'every recorded time is within 1e-10 of a requested one'
+    are implied by the theorems (an observable may legitimately be recorded at two grid points
+    that are 1e-12..1e-10 apart)."""
+    dur = float(dur_eff if dur_eff is not None else case["dur"])
+    dt = float(case["dt"])
+    cand = [1.0] + [i * dt / dur for i in range(int(math.floor(dur / dt)) + 1)]
+    for o in case["obs"]:
+        r = o if o is not None else (None if case["dflt"] == "Full" else case["dflt"])
+        if r:
+            cand += [float(x) for x in r]
+    cand.sort()
+    for x, y in zip(cand, cand[1:]):
+        if GREY_LO <= y - x <= GREY_HI:
+            return "weak"
+    return "strong"
